@@ -11,10 +11,10 @@ cd $W && git checkout -q -- . && git clean -fdq
 name=zz_seed_demo_test.go
 cp "$demo" $W/$pkgdir/$name
 echo "== demo in $pkgdir, clean tree"
-(cd $W && go test -vet=off -count=1 -run 'Demo|Seed|C[0-9]+' -timeout 300s ./$pkgdir 2>&1 | tail -3)
+(cd $W && go test -tags verif -vet=off -count=1 -run 'Demo|Seed|C[0-9]+' -timeout 300s ./$pkgdir 2>&1 | tail -3)
 clean=$?
 echo "== with patch"
-(cd $W && git apply $O/patch.diff && go test -vet=off -count=1 -run 'Demo|Seed|C[0-9]+' -timeout 300s ./$pkgdir 2>&1 | tail -5)
+(cd $W && git apply $O/patch.diff && go test -tags verif -vet=off -count=1 -run 'Demo|Seed|C[0-9]+' -timeout 300s ./$pkgdir 2>&1 | tail -5)
 rm -f $W/$pkgdir/$name
 echo "== package tests with patch"
 (cd $W && go test -vet=off -count=1 ./$pkgdir 2>&1 | tail -3)
